@@ -84,6 +84,12 @@ def mutations(rng, schema, base):
             out.append(("time_numeric_string", k, with_("1714557600"), "unspecified"))
             out.append(("time_negative_epoch", k, with_(-86400), "unspecified"))
             out.append(("time_float_epoch", k, with_(1714557600.5), "unspecified"))
+            # an epoch is seconds .. nanoseconds (at most 19 digits): 20-digit integers are no time at all
+            out.append(("time_integer_20_digits", k, with_(rng.choice([10 ** 19, gen.U64_MAX, 12345678901234567890])), "reject"))
+            out.append(("time_epoch_ms", k, with_(1714557600123), "accept"))
+            out.append(("time_epoch_ns", k, with_(1714557600123456789), "accept"))
+            out.append(("time_iso_offset", k, with_("2024-05-01T12:00:00+05:30") if k == "datetime" else with_("2024-05-01"), "accept"))
+            out.append(("time_garbage_string", k, with_("yesterday"), "reject"))
     # extra / misspelled keys
     p = dict(base); p["extra_key"] = 1
     out.append(("extra_key", "-", p, "reject"))
